@@ -18,6 +18,8 @@ import Nq.Lemmas.SmtpLip
 import Nq.Lemmas.SmtpCmdSpec
 import Nq.Lemmas.SmtpCmdSession
 import Nq.Lemmas.SmtpPolicyDoc
+import Nq.Lemmas.SmtpAddrParse
+import Nq.Lemmas.SmtpFlush
 
 namespace Nq.Props.C08
 open Nq Nq.SmtpIn Nq.SmtpSession Nq.SmtpPolicy Nq.Lemmas.Smtp
@@ -379,5 +381,81 @@ example : RcptHostOK cfgEx [117, 64, 97, 46, 87, 46, 101] := (rcptHostOKB_iff _ 
 example : ¬ RcptHostOK cfgEx [117, 64, 119, 46, 101] := fun h => absurd ((rcptHostOKB_iff _ _).2 h) (by decide)
 example : BadSenderDoc cfgEx [115, 64, 66] := (badSenderDocB_iff _ _).1 (by decide)
 example : RcptDoc { relay := some [64, 114] } [117] [117, 64, 114] := rfl
+
+/-! ### Session 4: address unquoting against an independent path grammar (`Nq.Spec.SmtpAddr`) -/
+
+open Nq.SmtpAddrSpec in
+/-- The path grammar is well defined.  For every argument: the lexer-based reading `specPath` satisfies the
+declarative relation `IsPath` (start after the first `<` / after the first `:` and blanks / nothing; a leading
+`@…:` source route dropped; the rest a sequence of plain bytes, `\x` pairs and `"…"` strings up to the first
+top-level terminator, unterminated strings and a lone trailing backslash included), and the relation
+determines the address.  The item grammar alone (`IsUnq`) is total for every terminator. -/
+theorem C08_addr_spec_wd (arg : Bytes) :
+    IsPath arg (specPath arg) ∧ (∀ a, IsPath arg a ↔ a = specPath arg) ∧
+    (∀ term s, IsUnq term s (specUnq term s)) ∧
+    IsStart arg (specStart arg).1 (specStart arg).2 ∧ (∀ body, IsRoute body (specRoute body)) :=
+  ⟨specPath_is arg, IsPath_iff arg, specUnq_is, specStart_is arg, specRoute_is⟩
+
+open Nq.SmtpAddrSpec in
+/-- model = spec for ALL arguments and configurations: the copy loop / source-route / bracket code of the model
+of addrparse() computes exactly the address the grammar denotes, and the model's addrparse (localiphost rule,
+900-byte limit) is `specAddrparse`; `AddrSpec` (declarative: some `IsPath` reading, `lipSpec`, literal limit)
+holds of exactly that result. -/
+theorem C08_addr_spec (cfg : Cfg) (arg : Bytes) :
+    addrRaw arg = specPath arg ∧ addrparse cfg arg = specAddrparse cfg arg ∧
+    (∀ res, AddrSpec cfg arg res ↔ res = addrparse cfg arg) :=
+  ⟨addrRaw_eq_spec arg, addrparse_eq_spec cfg arg, fun res => by rw [addrparse_eq_spec]; exact AddrSpec_iff cfg arg res⟩
+
+open Nq.SmtpAddrSpec in
+/-- each item of the grammar is what the model's loop makes of it, for the two terminators that occur: the
+relation `IsUnq` determines the address (any two readings of a string give the same address). -/
+theorem C08_addr_unq_unique (term : Byte) (ht : term = RAB ∨ term = SP) (s a b : Bytes)
+    (ha : IsUnq term s a) (hb : IsUnq term s b) : a = b := by
+  have h1 : SmtpAddrSpec.BSL ≠ term := by rcases ht with rfl | rfl <;> decide
+  have h2 : SmtpAddrSpec.DQ ≠ term := by rcases ht with rfl | rfl <;> decide
+  rw [IsUnq_unq term h1 h2 s a ha, IsUnq_unq term h1 h2 s b hb]
+
+/-- the trace checkers the driver now runs (`traceBadS`: `traceBad` with `specAddrparse` as "the parsed address")
+are the checkers of `C08_oracle_iff`. -/
+theorem C08_addr_oracle (cfg : Cfg) (tr pre : List Ev) (i : Nat) :
+    traceBadS cfg pre tr i = traceBad cfg pre tr i ∧ gateOKBS = gateOKB ∧ submitOKBS = submitOKB :=
+  ⟨traceBadS_eq cfg tr pre i, gateOKBS_eq, submitOKBS_eq⟩
+
+-- `<@a,@b:">"\"@c>x`  reads as  `>"@c`  (source route dropped, quoted `>`, escaped quote, junk after `>` ignored)
+example : Nq.SmtpAddrSpec.specPath [60, 64, 97, 44, 64, 98, 58, 34, 62, 34, 92, 34, 64, 99, 62, 120] = [62, 34, 64, 99] := by decide
+-- bracketless `FROM:  u\ v w`: starts after the colon and blanks, ends at the first unescaped blank
+example : Nq.SmtpAddrSpec.specPath [70, 58, 32, 32, 117, 92, 32, 118, 32, 119] = [117, 32, 118] := by decide
+-- unterminated quoted string with a lone trailing backslash: `<"a>\`
+example : Nq.SmtpAddrSpec.specPath [60, 34, 97, 62, 92] = [97, 62] := by decide
+example : Nq.SmtpAddrSpec.IsUnq 62 [34, 97, 62, 92] [97, 62] :=
+  ⟨[], .openq [.ch 97, .ch 62] true, by simp, by simp [Nq.SmtpAddrSpec.Ending.ok, Nq.SmtpAddrSpec.QItem.ok, Nq.SmtpAddrSpec.BSL, Nq.SmtpAddrSpec.DQ], by decide, by decide⟩
+example : specAddrparse cfgEx [60, 64, 120, 58, 117, 64, 76, 46, 69, 62] = some [117, 64, 76, 46, 69] := by decide
+set_option maxRecDepth 20000 in
+example : AddrSpec cfgEx (60 :: List.replicate 900 97) none :=
+  (Nq.SmtpPolicy.AddrSpec_iff _ _ _).2 (by decide)
+
+/-! ### Session 4: the flush discipline of commands() (`Nq.SmtpFlush`) -/
+
+open Nq.SmtpFlush in
+/-- No reply is withheld.  For EVERY command table, flush-flag assignment, handlers (state, call ↦ state, reply length,
+exits?), output buffer size, banner length, input buffer state and read script: the event list of commands() with
+`saferead` as the read op is disciplined (`disciplinedB`, the Boolean the driver evaluates on the implementation's own
+event log), which means: whenever the server issues a `read` of the connection, and whenever the flush callback of a
+table entry has run, the number of bytes written so far equals the number of reply bytes generated so far (banner
+included); and no write runs ahead of what was generated. -/
+theorem C08_flush {σ : Type} (table : List Bytes) (flags : Nat → Bool) (h : Handler σ) (size : Nat) (st : σ) (s : ISt) (banner : Nat) :
+    disciplinedB 0 (cmdsEv table flags h size st s banner) = true ∧
+    ∀ pre e post, cmdsEv table flags h size st s banner = pre ++ e :: post →
+      written pre ≤ generated pre ∧ ((e = .rd ∨ e = .fl) → written pre = generated pre) := by
+  refine ⟨disc_cmdsEv table flags h size st s banner, ?_⟩
+  intro pre e post hs
+  have := disc_meaning pre 0 e post (by rw [← hs]; exact disc_cmdsEv table flags h size st s banner)
+  simpa using this
+
+-- "ab\nc\n" through a 4-byte input buffer, reads of ≤ 3 bytes, entry 0 = "ab" without flush callback, catch-all with one:
+-- the 5 bytes of the first reply stay buffered past the handler and are written before the second read
+example : Nq.SmtpFlush.cmdsEv [[97, 98]] (fun i => i != 0) (fun (_ : Unit) c => ((), 5 + c.1, false)) 16 () (istart 4 [97, 98, 10, 99, 10] [3, 3]) 7 =
+    [.gen 7, .wr 7, .rd, .gen 5, .cmd 0, .wr 5, .rd, .gen 6, .cmd 1, .wr 6, .fl, .rd] := by decide
+example : Nq.SmtpFlush.disciplinedB 0 [.gen 7, .rd] = false := by decide
 
 end Nq.Props.C08
